@@ -476,7 +476,13 @@ def observe(root):
         r.close()
     try:
         idx = Index(os.path.join(p, ".git", "index"))
-        out["index"] = sorted((k, repr(v)) for k, v in idx.items())
+        # stat fields (times, inode, device) depend on the scratch copy the operation ran in, not on the operation
+        def _ent(v):
+            if hasattr(v, "sha"):
+                return (v.mode, v.sha, v.size, v.flags, getattr(v, "extended_flags", 0))
+            return repr(v)
+
+        out["index"] = sorted((k, _ent(v)) for k, v in idx.items())
     except Exception as e:
         out["index"] = "ERR %s: %s" % (type(e).__name__, str(e)[:80])
     try:
